@@ -110,11 +110,21 @@ func hooks(sc *pipe.Scenario) *pipe.Hooks {
 			_ = reconf(ctx, g)
 			return true
 		case "reconf-double":
+			// processor.Service is single-writer: the configuration is updated once, then two
+			// reconfigure requests for it race each other on the node
 			g, _ := strconv.Atoi(parts[1])
+			if err := update(g); err != nil {
+				return true
+			}
 			var wg sync.WaitGroup
 			for k := 0; k < 2; k++ {
 				wg.Add(1)
-				go func(k int) { defer wg.Done(); _ = reconf(ctx, g+k) }(k)
+				go func() {
+					defer wg.Done()
+					_ = r.Ctl("Reconfigure", strconv.Itoa(g), func() error {
+						return r.V1.ReconfigureProcessor(ctx, sc.Topo.Pipeline, target)
+					})
+				}()
 			}
 			wg.Wait()
 			return true
@@ -149,8 +159,10 @@ func judge(out *pipe.Outcome, ix *pipe.Index) pipe.Verdict {
 	okGens := map[int]bool{1: true}
 	failedGens := map[int]bool{}
 	pendingGens := map[int]bool{}
-	reqAt := map[int]int{}
-	retAt := map[int]int{}
+	reqAt := map[int]int{} // call id -> event
+	retAt := map[int]int{} // call id -> event
+	genOfCall := map[int]int{}
+	okCalls := map[int]bool{}
 	scriptedFail := map[int]bool{}
 	for _, st := range sc.Steps {
 		if strings.HasPrefix(st.Op, "reconf-fail:") {
@@ -158,6 +170,8 @@ func judge(out *pipe.Outcome, ix *pipe.Index) pipe.Verdict {
 			scriptedFail[g] = true
 		}
 	}
+	type request struct{ gen, ctl, ret int }
+	reqs := map[int]*request{} // call id -> request
 	for i := range evs {
 		e := &evs[i]
 		if e.Op != "Reconfigure" {
@@ -165,15 +179,21 @@ func judge(out *pipe.Outcome, ix *pipe.Index) pipe.Verdict {
 		}
 		g, _ := strconv.Atoi(e.Arg)
 		if e.Kind == rig.KCtl {
-			reqAt[g] = i
+			reqs[e.Call] = &request{gen: g, ctl: i, ret: -1}
+			reqAt[e.Call] = i
 			pendingGens[g] = true
 		}
 		if e.Kind == rig.KCtlRet {
-			retAt[g] = i
+			if rq := reqs[e.Call]; rq != nil {
+				rq.ret = i
+			}
+			retAt[e.Call] = i
+			genOfCall[e.Call] = g
 			delete(pendingGens, g)
 			v.Stats["reconfigure_requests_judged"]++
 			if e.Err == "" {
 				okGens[g] = true
+				okCalls[e.Call] = true
 				v.Stats["reconfigures_succeeded"]++
 				if scriptedFail[g] {
 					add("failed-open-reported-as-success", fmt.Sprintf("the new processor (generation %d) cannot be opened, yet Reconfigure returned nil", g), i)
@@ -244,20 +264,21 @@ func judge(out *pipe.Outcome, ix *pipe.Index) pipe.Verdict {
 	// a successful swap takes effect: after an EXCLUSIVE request (no other request overlapping
 	// it) for generation g returned nil, the calls that follow - until the next request is
 	// issued - are handled by g
-	for g, r := range retAt {
-		if !okGens[g] {
+	for cid, r := range retAt {
+		g := genOfCall[cid]
+		if !okCalls[cid] {
 			continue
 		}
 		exclusive := true
 		for h, q := range reqAt {
-			if h == g {
+			if h == cid {
 				continue
 			}
 			hr, done := retAt[h]
 			if !done {
 				hr = len(evs)
 			}
-			if q < r && hr > reqAt[g] {
+			if q < r && hr > reqAt[cid] {
 				exclusive = false
 			}
 		}
@@ -267,7 +288,7 @@ func judge(out *pipe.Outcome, ix *pipe.Index) pipe.Verdict {
 		}
 		next := len(evs)
 		for h, q := range reqAt {
-			if h != g && q > r && q < next {
+			if h != cid && q > r && q < next {
 				next = q
 			}
 		}
